@@ -271,6 +271,7 @@ func clone(sc Scenario) Scenario {
 // ShrinkScenario: strictly smaller candidates.
 func ShrinkScenario(sc Scenario) []Scenario {
 	var out []Scenario
+	out = append(out, shrinkExt(sc)...)
 	// drop a package nobody imports and no entry names
 	for i, p := range sc.Module.Pkgs {
 		used := false
@@ -479,7 +480,7 @@ func RunScenario(sc Scenario, scratch string, wrapper ...string) (*Observation, 
 	if err := sc.Module.Materialise(root); err != nil {
 		return nil, err
 	}
-	before, err := Snapshot(root)
+	before, err := SnapshotModule(root, &sc.Module)
 	if err != nil {
 		return nil, err
 	}
@@ -487,7 +488,7 @@ func RunScenario(sc Scenario, scratch string, wrapper ...string) (*Observation, 
 		Globals: sc.Globals, GlobalsSet: sc.GlobalsSet}
 	rr := RunChild(job, scratch, wrapper...)
 	InheritTags(rr.World, sc)
-	after, err := Snapshot(root)
+	after, err := SnapshotModule(root, &sc.Module)
 	if err != nil {
 		return nil, err
 	}
